@@ -52,10 +52,26 @@ Definition xnode_timeout_trigger (pre : ostate) (st : ostep) : bool :=
   | _ => false
   end.
 
+(* 10: a release with an EMPTY allocation key and termination type PLACEHOLDER_REPLACED for an application that has a
+       placeholder with a replacement in flight: removeAllocation "confirms" the swap (the real allocation is put on the
+       node and announced) while the same request drops every allocation and ask of the application (finding
+       C04-release-all-replaced seen by the accounting properties) *)
+Definition release_all_replaced_trigger (pre : ostate) (st : ostep) : bool :=
+  match st_op st with
+  | OpRelease app key ty =>
+      (key =? 0) && (ty =? TT_PlaceholderReplaced) &&
+      match find_app pre app with
+      | Some a => existsb (fun p => oa_ph p && negb (oa_release p =? 0)) (ap_allocs a)
+      | None => false
+      end
+  | _ => false
+  end.
+
 Definition known_trigger_ext (pre : ostate) (st : ostep) : option N :=
   match known_trigger pre st with
   | Some p => Some p
   | None => if linked_placeholder_resize pre st then Some 7
             else if xnode_real_replaced_release pre st then Some 8
-            else if xnode_timeout_trigger pre st then Some 9 else None
+            else if xnode_timeout_trigger pre st then Some 9
+            else if release_all_replaced_trigger pre st then Some 10 else None
   end.
